@@ -3,6 +3,9 @@ mod par;
 mod report;
 mod tree;
 mod valmc;
+mod lang;
+mod gen;
+mod progmc;
 mod crashmc;
 mod parsemc;
 mod dbgmc;
@@ -43,6 +46,7 @@ fn main() {
     par::install_panic_hook();
     let thorough = tier == "thorough";
     let code = par::with_big_stack(move || match id.as_str() {
+        "C01" => progmc::c01(thorough, replay),
         "C04" => clvmmc::c04(thorough, replay),
         "C06" => clvmmc::c06(thorough, replay),
         "C07" => conv::c07(thorough, replay),
